@@ -13,7 +13,10 @@ package gts
 // per level, built with the constructors Join, Order and Complement() (a literal
 // Complemented{Complemented{x}} is not a value the library produces).  Also: the same text
 // with a space after every comma, and the legacy spelling `a..b>` of a 3'-partial range, must
-// parse to the same value.
+// parse to the same value.  Strings: every leaf spelling over the coordinates {1,3,4,6,9} in any
+// order (backwards and empty ranges included), its complement, every join/order of two of them and
+// sampled three-part and nested forms: no panic, and parse-then-print is a fixed point on every
+// accepted string.
 
 import (
 	"fmt"
@@ -161,7 +164,62 @@ func TestVerifBoundedLocationText(t *testing.T) {
 			}
 		}
 	}
-	fmt.Printf("VB-STATS locations=%d leaves=%d\n", len(locs), len(leaves))
+	// strings, not values: location text with coordinates in any order (ranges written backwards or
+	// empty, which the constructors refuse but the grammar accepts), alone and as operands of
+	// join/order/complement.  The parser must not panic on any of them, and for every string it
+	// accepts, printing the result must be a fixed point of parse-then-print.
+	nums := []string{"1", "3", "4", "6", "9"}
+	var leafText []string
+	for _, a := range nums {
+		leafText = append(leafText, a, a+"^"+nums[(len(a)+1)%len(nums)])
+		for _, b := range nums {
+			leafText = append(leafText, a+".."+b, "<"+a+".."+b, a+"..>"+b, "<"+a+"..>"+b, a+"."+b, a+"^"+b)
+		}
+	}
+	texts := append([]string(nil), leafText...)
+	for _, a := range leafText {
+		texts = append(texts, "complement("+a+")")
+	}
+	for _, a := range leafText {
+		for _, b := range leafText {
+			texts = append(texts, "join("+a+","+b+")", "order("+a+","+b+")")
+		}
+	}
+	for k := 0; k < nt; k++ {
+		a, b, c := leafText[rng.Intn(len(leafText))], leafText[rng.Intn(len(leafText))], leafText[rng.Intn(len(leafText))]
+		texts = append(texts, "join("+a+","+b+","+c+")", "complement(join("+a+","+b+"))", "join(complement("+b+"),complement("+a+"))",
+			"order("+a+",join("+b+","+c+"))", "join("+a+",complement("+b+"),"+c+")")
+	}
+	for _, s := range texts {
+		y, err := parse(s)
+		if err != nil {
+			if strings.HasPrefix(err.Error(), "panic:") {
+				rec("parser-total", Point(0), fmt.Sprintf("AsLocation(%q): %v", s, err))
+			}
+			continue
+		}
+		var p1 string
+		func() {
+			defer func() {
+				if r := recover(); r != nil {
+					rec("parser-total", Point(0), fmt.Sprintf("printing AsLocation(%q) panicked: %v", s, r))
+				}
+			}()
+			p1 = y.String()
+		}()
+		if p1 == "" {
+			continue
+		}
+		z, err := parse(p1)
+		if err != nil {
+			rec("accepted-string-fixed-point", Point(0), fmt.Sprintf("%q parses and prints as %q, which does not parse: %v", s, p1, err))
+			continue
+		}
+		if p2 := z.String(); p2 != p1 {
+			rec("accepted-string-fixed-point", Point(0), fmt.Sprintf("%q prints as %q, which parses and prints as %q", s, p1, p2))
+		}
+	}
+	fmt.Printf("VB-STATS locations=%d leaves=%d strings=%d\n", len(locs), len(leaves), len(texts))
 	var keys []string
 	for k := range fails {
 		keys = append(keys, k)
